@@ -481,6 +481,10 @@ B C 1 0.3 1000
 RC 1
 [ atoms ]
 1 C1 1 RC D 1 0.0 72
+[ moleculetype ]
+CAP 1
+[ atoms ]
+1 C1 1 RD E 1 0.0 36
 [ link ]
 resname "RA|RB"
 [ bonds ]
@@ -493,6 +497,7 @@ MULTI_BLOCKS = {
     'DIM': {'atoms': [('A', 'P1', 1, 'RA', 1, 0.0, 72.0), ('B', 'P1', 1, 'RA', 2, 0.5, 36.0), ('C', 'P2', 2, 'RB', 3, -0.5, 45.0)],
             'bonds': [([0, 1], ['1', '0.3', '1000']), ([1, 2], ['1', '0.3', '1000'])]},
     'RC': {'atoms': [('D', 'C1', 1, 'RC', 1, 0.0, 72.0)], 'bonds': []},
+    'CAP': {'atoms': [('E', 'C1', 1, 'RD', 1, 0.0, 36.0)], 'bonds': []},
 }
 
 
@@ -517,19 +522,22 @@ def multi_residue_cases(ctx):
         nc = rng.randint(1, 3)
         tail = rng.random() < 0.4                     # a single-residue block after the copies
         lead = rng.random() < 0.3                     # ... or before them
-        seq = (['RC'] if lead else []) + ['RA', 'RB'] * nc + (['RC'] if tail else [])
+        # a second from_itp molecule (one residue) bonded directly to the copies of the first: before or after them
+        cap = rng.choice(['', '', 'before', 'after'])
+        seq = (['RC'] if lead else []) + (['RD'] if cap == 'before' else []) + ['RA', 'RB'] * nc + (['RD'] if cap == 'after' else []) + \
+            (['RC'] if tail else [])
         keys = rng.sample(range(0, 40), len(seq)) if rng.random() < 0.5 else list(range(len(seq)))
         g = nx.Graph()
         for i, k in enumerate(keys):
             attrs = {'resname': seq[i], 'resid': r0 + i}
             if seq[i] != 'RC':
-                attrs['from_itp'] = 'DIM'
+                attrs['from_itp'] = 'CAP' if seq[i] == 'RD' else 'DIM'
             g.add_node(k, **attrs)
         for i in range(len(keys) - 1):
             g.add_edge(keys[i], keys[i + 1])
         vff = ffgen.load_ff(MULTI_FF)
         meta = MetaMolecule(g, force_field=vff, mol_name='m')
-        rep = {'multi': True, 'r0': r0, 'seq': seq, 'keys': keys}
+        rep = {'multi': True, 'r0': r0, 'seq': seq, 'keys': keys, 'cap': cap}
         ctx.case(('multi', r0, tuple(seq), tuple(keys)), nontrivial=nc >= 2 or lead or tail, sample=rep)
         ctx.feature('multi_residue_block')
         sink = io.StringIO()
@@ -541,7 +549,7 @@ def multi_residue_cases(ctx):
             continue
         want = []
         for i, rn in enumerate(seq):
-            for an, at, ch in {'RA': [('A', 'P1', 0.0), ('B', 'P1', 0.5)], 'RB': [('C', 'P2', -0.5)], 'RC': [('D', 'C1', 0.0)]}[rn]:
+            for an, at, ch in {'RA': [('A', 'P1', 0.0), ('B', 'P1', 0.5)], 'RB': [('C', 'P2', -0.5)], 'RC': [('D', 'C1', 0.0)], 'RD': [('E', 'C1', 0.0)]}[rn]:
                 want.append((r0 + i, rn, an, at, ch))
         mol = meta.molecule
         got = [(mol.nodes[n]['resid'], mol.nodes[n]['resname'], mol.nodes[n]['atomname'], mol.nodes[n]['atype'], float(mol.nodes[n]['charge']))
@@ -560,7 +568,10 @@ def multi_residue_cases(ctx):
         nb = len(mol.interactions.get('bonds', []))
         if nb != 2 * nc:
             ctx.violation('spec', f"multi-residue block: {nb} bonds after mapping, the block defines 2 per copy ({nc} copies)", rep)
-        inst = ([(False, 'RC')] if lead else []) + [(True, 'DIM')] * nc + ([(False, 'RC')] if tail else [])
+        inst = ([(False, 'RC')] if lead else []) + ([(True, 'CAP')] if cap == 'before' else []) + [(True, 'DIM')] * nc + \
+            ([(True, 'CAP')] if cap == 'after' else []) + ([(False, 'RC')] if tail else [])
+        if cap:
+            ctx.feature('two_different_from_itp_molecules_bonded')
         exprs.append(f"show (add_blocks_m {r0} [" + '; '.join(f"({lit(f)}, {coq_multi_block(n)})" for f, n in inst) + "])")
         keep.append((rep, ffgen.snapshot(mol)))
     try:
